@@ -449,14 +449,18 @@ pub fn check_case(case: &Case17, legs: &[Leg], rep: &mut Report) {
                 continue;
             }
         }
-        if got != ref_log && truncated_trailing_replacement(&ref_log, &got) {
-            // Known finding (encoding_rs_io): when the read buffer offered
-            // at end of input has fewer than 4 free bytes, the replacement
-            // character flushed for a malformed tail is cut short.
+        if got != ref_log
+            && transcoded.ends_with("\u{FFFD}".as_bytes())
+            && truncated_trailing_replacement(&ref_log, &got)
+        {
+            // Known finding (encoding_rs_io): the replacement character that
+            // stands for a malformed tail of the input is lost (legacy
+            // multi-byte encodings: a lead byte pending at end of input) or
+            // cut short (read buffer with fewer than 4 free bytes at the end).
             rep.violation(
-                "C17:trailing-replacement-char-truncated-by-tiny-read-buffer",
+                "C17:malformed-tail-replacement-char-lost-or-truncated",
                 format!(
-                    "{}: leg {}: the U+FFFD that ends the transcoding is cut short (raw tail {})",
+                    "{}: leg {}: the U+FFFD that ends the transcoding is lost or cut short (raw tail {})",
                     kind,
                     leg.name(),
                     esc_short(&case.raw[case.raw.len().saturating_sub(8)..], 16)
@@ -506,24 +510,21 @@ pub fn check_case(case: &Case17, legs: &[Leg], rep: &mut Report) {
     });
 }
 
-/// `got` equals `reference` except that the last delivered line, which ends
-/// in U+FFFD in the reference, lacks its final one or two bytes (and the
-/// byte count is lower by the same amount).
+/// `got` equals `reference` except for the final U+FFFD of the transcoding
+/// (which stands for a malformed tail of the input): the last delivered line
+/// lacks its final 1-3 bytes and / or the byte count is lower by 1-3.
 fn truncated_trailing_replacement(reference: &[Event], got: &[Event]) -> bool {
-    if reference.len() != got.len() || reference.len() < 3 {
+    if reference.len() != got.len() || reference.len() < 2 {
         return false;
     }
     let n = reference.len();
     let last = (0..n).rev().find(|&i| {
         matches!(reference[i], Event::Matched { .. } | Event::Context { .. })
     });
-    let last = match last {
-        Some(i) => i,
-        None => return false,
-    };
-    let mut missing = 0u64;
+    let mut missing_line: Option<u64> = None;
+    let mut missing_count: Option<u64> = None;
     for i in 0..n {
-        if i == last {
+        if Some(i) == last && reference[i] != got[i] {
             let (rb, gb, same_rest) = match (&reference[i], &got[i]) {
                 (
                     Event::Matched { bytes: rb, off: ro, line: rl },
@@ -539,28 +540,35 @@ fn truncated_trailing_replacement(reference: &[Event], got: &[Event]) -> bool {
                 || !rb.ends_with("\u{FFFD}".as_bytes())
                 || !rb.starts_with(gb)
                 || rb.len() <= gb.len()
-                || rb.len() - gb.len() > 2
+                || rb.len() - gb.len() > 3
             {
                 return false;
             }
-            missing = (rb.len() - gb.len()) as u64;
+            missing_line = Some((rb.len() - gb.len()) as u64);
         } else if let (
             Event::Finish { byte_count: rc, binary: rbin },
             Event::Finish { byte_count: gc, binary: gbin },
         ) = (&reference[i], &got[i])
         {
-            if rbin != gbin || *rc != *gc + missing {
+            if rbin != gbin || rc < gc || rc - gc > 3 {
                 return false;
+            }
+            if rc != gc {
+                missing_count = Some(rc - gc);
             }
         } else if reference[i] != got[i] {
             return false;
         }
     }
-    missing > 0
+    match (missing_line, missing_count) {
+        (Some(a), Some(b)) => a == b,
+        (None, Some(_)) => true,
+        _ => false,
+    }
 }
 
 pub fn run(ctx: &Ctx) -> Report {
-    let n = ctx.cases(600, 40_000);
+    let n = ctx.cases(4000, 150_000);
     crate::par_cases(ctx, 17, n, |rng, _i, rep| {
         let case = gen_case(rng);
         let legs = gen_legs(rng, &case);
